@@ -3,7 +3,7 @@
     generators; sorting optimiser; multi-objective choice; protocol-level select). *)
 From Coq Require Import Permutation Sorting.Sorted Qround PrimFloat.
 From PV Require Import Lib.Common Model.C17_Sampling Proofs.C17_Sampling Model.C07_Config
-  Proofs.C07_LocalOpt Proofs.C07_Tail Proofs.C07_Xmap Proofs.C07_Sort Proofs.C07_Tiled Proofs.C07_RealMateMo Proofs.C07_Integer
+  Proofs.C07_LocalOpt Proofs.C07_Tail Proofs.C07_Xmap Proofs.C07_Sort Proofs.C07_Tiled Proofs.C07_RealMateMo Proofs.C07_Integer Proofs.C07_MateExt
   Gen.C07_Kernel Model.C07_KernelProg Proofs.C07_Kernel.
 
 (** * the tail of every individual-based configuration: outcross descent, then a shuffle within every cross.
@@ -165,14 +165,17 @@ Theorem C07_kernel_is_model :
   (forall nc np decn order off perm pms, kcfg_real_q nc np decn order off perm pms = cfg_real_q nc np decn order off perm pms) /\
   (forall nc np decn xmap choice perm perm2, kcfg_mate nc np decn xmap choice perm perm2 = cfg_mate nc np decn xmap choice perm perm2) /\
   (forall nc np decn xmap start perm, kcfg_integer_mate nc np decn xmap start perm = cfg_integer_mate nc np decn xmap start perm) /\
+  (forall nc np decn xmap choice perm perm2, kcfg_binary_mate nc np decn xmap choice perm perm2 = cfg_binary_mate nc np decn xmap choice perm perm2) /\
+  (forall nc np decn xmap order off perm perm2, kcfg_real_mate_f nc np decn xmap order off perm perm2 = cfg_real_mate_f nc np decn xmap order off perm perm2) /\
+  (forall nc np decn xmap order off perm perm2, kcfg_real_mate_q nc np decn xmap order off perm perm2 = cfg_real_mate_q nc np decn xmap order off perm perm2) /\
   (forall nc np nm npg, kproto_args_ok nc np nm npg = proto_args_ok nc np nm npg) /\
   (forall nc np nm npg, kcfg_args_ok nc np nm npg = cfg_args_ok nc np nm npg) /\
   (forall crit k, ksort_select crit k = sort_select crit k) /\
   (forall n k u, (0 < k)%nat -> kxmapix n k u = xmapix n k u).
 Proof.
   exact (conj kcfg_subset_model (conj kcfg_binary_model (conj kcfg_integer_model (conj kcfg_real_f_model (conj kcfg_real_q_model
-        (conj kcfg_mate_model (conj kcfg_integer_mate_model (conj kproto_args_ok_model (conj kcfg_args_ok_model
-        (conj ksort_select_model kxmapix_model)))))))))).
+        (conj kcfg_mate_model (conj kcfg_integer_mate_model (conj kcfg_binary_mate_model (conj kcfg_real_mate_f_model (conj kcfg_real_mate_q_model
+        (conj kproto_args_ok_model (conj kcfg_args_ok_model (conj ksort_select_model kxmapix_model))))))))))))).
 Qed.
 Print Assumptions C07_kernel_is_model.
 
@@ -242,6 +245,36 @@ Theorem C07_kernel_mate_even_use : forall nc np decn xmap choice perm perm2 rows
 Proof. exact kcfg_mate_spec. Qed.
 Print Assumptions C07_kernel_mate_even_use.
 
+(** 0/1 vectors over candidate crosses (BinaryMateSelectionConfiguration): marked crosses used evenly, unmarked never *)
+Theorem C07_kernel_binary_mate_even_use : forall nc np x xmap choice perm perm2 rows,
+  let opts := rep_from 0 x in
+  is_binary x = true -> (0 < length opts)%nat ->
+  NoDup choice -> Forall (fun p => (p < length opts)%nat) choice -> length choice = (nc mod length opts)%nat ->
+  Permutation perm (seq 0 nc) -> Permutation perm2 (seq 0 nc) ->
+  kcfg_binary_mate nc np x xmap choice perm perm2 = Some rows ->
+  exists ds, xmap_rows xmap ds = Some rows /\ length rows = nc /\ length ds = nc /\
+    Forall (fun r => length r = np) rows /\
+    (forall d, In d ds -> exists i, d = Z.of_nat i /\ (i < length x)%nat /\ nth i x 0%Z = 1%Z) /\
+    (forall i, (i < length x)%nat -> nth i x 0%Z = 1%Z -> (nc / length opts <= count_z (Z.of_nat i) ds <= nc / length opts + 1)%nat) /\
+    (forall i, (i < length x)%nat -> nth i x 0%Z = 0%Z -> count_z (Z.of_nat i) ds = 0%nat).
+Proof. exact kcfg_binary_mate_spec. Qed.
+Print Assumptions C07_kernel_binary_mate_even_use.
+
+(** contribution vectors over candidate crosses (RealMateSelectionConfiguration, ideal pointers) *)
+Theorem C07_kernel_real_mate_floor_ceil_share : forall nc np (p : list Q) xmap order off perm perm2 rows,
+  Forall (fun x => 0 <= x) p -> 0 < sumQ p -> Permutation order (seq 0 (length p)) ->
+  nonincr (gather 0 p order) = true ->
+  0 <= off -> off < sumQ p / inject_Z (Z.of_nat nc) -> Permutation perm (seq 0 nc) -> Permutation perm2 (seq 0 nc) ->
+  kcfg_real_mate_q nc np p xmap order off perm perm2 = Some rows ->
+  exists ds, xmap_rows xmap ds = Some rows /\ length rows = nc /\ length ds = nc /\
+    Forall (fun r => length r = np) rows /\
+    (forall d, In d ds -> exists i, d = Z.of_nat i /\ (i < length p)%nat /\ ~ nth i p 0 == 0) /\
+    (forall i, (i < length p)%nat ->
+       (Qfloor (nth i p 0 * inject_Z (Z.of_nat nc) / sumQ p)%Q <= Z.of_nat (count_z (Z.of_nat i) ds)
+        <= Qceiling (nth i p 0 * inject_Z (Z.of_nat nc) / sumQ p)%Q)%Z).
+Proof. exact kcfg_real_mate_q_spec. Qed.
+Print Assumptions C07_kernel_real_mate_floor_ceil_share.
+
 (** real contribution vectors (ideal pointers): member i is used floor or ceiling of t*x_i/sum(x) times *)
 Theorem C07_kernel_real_floor_ceil_share : forall nc np (p : list Q) order off perm pms r,
   let k := (nc * np)%nat in
@@ -275,7 +308,9 @@ Theorem C07_kernel_mo_choice_is_first_argmax : forall D C wt trans front (decns 
   (kselect_mo (@k_sel_integer_pick _) k_sel_integer_score k_sel_integer_mo_row wt trans front decns cfg = Some (d, c) -> mo_choice_post wt trans front decns cfg d c) /\
   (kselect_mo (@k_sel_binary_pick _) k_sel_binary_score k_sel_binary_mo_row wt trans front decns cfg = Some (d, c) -> mo_choice_post wt trans front decns cfg d c) /\
   (kselect_mo (@k_sel_mate_pick _) k_sel_mate_score k_sel_mate_mo_row wt trans front decns cfg = Some (d, c) -> mo_choice_post wt trans front decns cfg d c) /\
-  (kselect_mo (@k_sel_imate_pick _) k_sel_imate_score k_sel_imate_mo_row wt trans front decns cfg = Some (d, c) -> mo_choice_post wt trans front decns cfg d c).
+  (kselect_mo (@k_sel_imate_pick _) k_sel_imate_score k_sel_imate_mo_row wt trans front decns cfg = Some (d, c) -> mo_choice_post wt trans front decns cfg d c) /\
+  (kselect_mo (@k_sel_bmate_pick _) k_sel_bmate_score k_sel_bmate_mo_row wt trans front decns cfg = Some (d, c) -> mo_choice_post wt trans front decns cfg d c) /\
+  (kselect_mo (@k_sel_rmate_pick _) k_sel_rmate_score k_sel_rmate_mo_row wt trans front decns cfg = Some (d, c) -> mo_choice_post wt trans front decns cfg d c).
 Proof. exact kselect_mo_spec. Qed.
 Print Assumptions C07_kernel_mo_choice_is_first_argmax.
 
@@ -288,14 +323,17 @@ Theorem C07_kernel_dispatch_and_arguments : forall (nobj : Z) (a b : nat) (c d :
   (k_sel_integer_is_so nobj = so /\ k_sel_integer_is_mo nobj = mo /\ k_sel_integer_so_args a b c d = args /\ k_sel_integer_mo_args a b c d = args) /\
   (k_sel_binary_is_so nobj = so /\ k_sel_binary_is_mo nobj = mo /\ k_sel_binary_so_args a b c d = args /\ k_sel_binary_mo_args a b c d = args) /\
   (k_sel_mate_is_so nobj = so /\ k_sel_mate_is_mo nobj = mo /\ k_sel_mate_so_args a b c d = args /\ k_sel_mate_mo_args a b c d = args) /\
-  (k_sel_imate_is_so nobj = so /\ k_sel_imate_is_mo nobj = mo /\ k_sel_imate_so_args a b c d = args /\ k_sel_imate_mo_args a b c d = args).
+  (k_sel_imate_is_so nobj = so /\ k_sel_imate_is_mo nobj = mo /\ k_sel_imate_so_args a b c d = args /\ k_sel_imate_mo_args a b c d = args) /\
+  (k_sel_bmate_is_so nobj = so /\ k_sel_bmate_is_mo nobj = mo /\ k_sel_bmate_so_args a b c d = args /\ k_sel_bmate_mo_args a b c d = args) /\
+  (k_sel_rmate_is_so nobj = so /\ k_sel_rmate_is_mo nobj = mo /\ k_sel_rmate_so_args a b c d = args /\ k_sel_rmate_mo_args a b c d = args).
 Proof. exact k_sel_dispatch_args. Qed.
 Print Assumptions C07_kernel_dispatch_and_arguments.
 
 Theorem C07_kernel_single_objective_first_row : forall D C (decns : list D) (cfg : D -> option C),
   kselect_so k_sel_subset_so_row decns cfg = select_so decns cfg /\ kselect_so k_sel_real_so_row decns cfg = select_so decns cfg /\
   kselect_so k_sel_integer_so_row decns cfg = select_so decns cfg /\ kselect_so k_sel_binary_so_row decns cfg = select_so decns cfg /\
-  kselect_so k_sel_mate_so_row decns cfg = select_so decns cfg /\ kselect_so k_sel_imate_so_row decns cfg = select_so decns cfg.
+  kselect_so k_sel_mate_so_row decns cfg = select_so decns cfg /\ kselect_so k_sel_imate_so_row decns cfg = select_so decns cfg /\
+  kselect_so k_sel_bmate_so_row decns cfg = select_so decns cfg /\ kselect_so k_sel_rmate_so_row decns cfg = select_so decns cfg.
 Proof. exact @kselect_so_model. Qed.
 Print Assumptions C07_kernel_single_objective_first_row.
 
@@ -326,11 +364,27 @@ Example C07_kernel_hyps_satisfiable :
   kxmapix 4 2 true = Some [[0;1];[0;2];[0;3];[1;2];[1;3];[2;3]]%nat /\ kxmapix 2 2 false = Some [[0;0];[0;1];[1;1]]%nat /\
   ksort_select [3; -1; 4; 1; 5; -9; 2; 6]%Z 3 = Some [5; 1; 3]%nat /\
   kselect_mo (@k_sel_subset_pick _) k_sel_subset_score k_sel_subset_mo_row (-1 # 1)%Q (map (fun r => nth 0 r 0%Q)) [[3#1];[1#1];[1#1]]%Q [10;11;12]%Z (fun d => Some (d + 1)%Z)
-    = Some (11, 12)%Z.
+    = Some (11, 12)%Z /\
+  is_binary [1;0;1]%Z = true /\ Permutation [1;0;2]%nat (seq 0 3) /\
+  kcfg_binary_mate 3 2 [1;0;1]%Z [[0;1];[0;2];[1;2]]%Z [1]%nat [1;0;2]%nat [2;1;0]%nat = Some [[1;2];[0;1];[1;2]]%Z /\
+  kcfg_real_mate_q 2 2 [1#2; 0; 1#2]%Q [[0;1];[0;2];[1;2]]%Z [2;0;1]%nat (1#4)%Q [0;1]%nat [1;0]%nat = Some [[0;1];[1;2]]%Z.
 Proof.
   cbv zeta. destruct C07_integer_hyps_satisfiable as (H1 & H2 & _). split; [exact H1|]. split; [exact H2|].
-  repeat split; vm_compute; reflexivity.
+  repeat split; try (vm_compute; reflexivity). apply is_perm_sound; reflexivity.
 Qed.
+
+(** * finding C07-uc-integer-bounds-shape (open): UsefulnessCriterionIntegerSelection.problem builds the upper bound of its decision
+    space from the protocol's nmating ARRAY: the two bounds can be stacked iff the protocol asks for one cross; for every valid
+    cross design with two or more crosses select() raises instead of producing a configuration *)
+Theorem C07_uc_integer_bounds_refuted : exists nc np nm nx,
+  proto_args_ok nc np (MArray nm) (MScalar 1%Z) = true /\ (0 < nx)%nat /\ uc_int_bounds nc np nm nx = None.
+Proof. exact uc_int_bounds_refuted. Qed.
+Print Assumptions C07_uc_integer_bounds_refuted.
+
+Theorem C07_uc_integer_bounds_partial : forall nc np nm nx, length nm = nc -> (0 < nx)%nat ->
+  (uc_int_bounds nc np nm nx <> None <-> nc = 1%nat).
+Proof. exact uc_int_bounds_iff. Qed.
+Print Assumptions C07_uc_integer_bounds_partial.
 
 Example C07_hyps_satisfiable :
   (* three selfed crosses, three descent passes, then a shuffle within every cross *)
